@@ -27,7 +27,7 @@ ASSUMPTIONS = [
 BUDGET = {"quick": 70, "thorough": 700}
 ROUNDS = {"thorough": 10}
 FLOORS = {"logdet_comparisons": {"quick": 1500, "thorough": 12000}, "inverse_round_trips": {"quick": 1000, "thorough": 8000},
-          "transformed_parameter_calls": 200, "tree_model_calls": 100, "tree_model_pre_reads": 3, "kinds": 13, "api_tree_model_calls": 100, "updates_through_a_view": 100, "rates_far_from_one": 20}
+          "transformed_parameter_calls": 200, "tree_model_calls": 100, "tree_model_pre_reads": 3, "kinds": 13, "api_tree_model_calls": 100, "updates_through_a_view": 100, "rates_far_from_one": 20, "mixed_precision_round_trips": 50}
 
 PLAIN = ["CumSum", "CumSumExp", "SoftPlus", "CumSumSoftPlus", "Log", "TrilExpDiagonal"]
 TORCH = ["Exp", "Sigmoid", "Affine", "AffineParam", "StickBreaking"]
@@ -67,6 +67,9 @@ def cases(tier, seed):
             if param == "ratio":
                 B = max(batch, 1)
                 u = rng.uniform(0.02, 0.98, (B, max(n - 2, 0)))
+                if j % 9 == 4:
+                    # a few ratios next to the ends of the interval: the inverse has to return them (tolerance rule of C06)
+                    u = np.where(rng.random(u.shape) < 0.4, rng.choice([1e-9, 3e-8, 1 - 1e-9, 1 - 4e-7], size=u.shape), u)
                 c["ratios"] = u.tolist() if batch else u[0].tolist()
             out.append({"kind": kind, "tree": c, "seed": int(rng.integers(2**31)), "route": str(rng.choice(["direct", "model", "api"] if kind in ("GeneralNodeHeight", "DifferenceNodeHeight") else ["direct", "model"]))})
             j += 1
@@ -321,6 +324,32 @@ def run_tree(case, V, C):
     else:
         tr = tree.transform
     x = tree._internal_heights.tensor.detach().clone()
+    if kind in ("GeneralNodeHeight", "DifferenceNodeHeight") and case["seed"] % 5 == 0:
+        # mixed precision: the process default is single precision (nothing called set_default_dtype), the parameters are double:
+        # the map works in the precision of its input
+        old_dtype = torch.get_default_dtype()
+        torch.set_default_dtype(torch.float32)
+        try:
+            _, dic32 = tt.load([phylo.taxa_json(tc), gt.tree_json(tc)])
+            t32 = dic32["tree"]
+            x32 = t32._internal_heights.tensor.detach().clone()
+            y32 = t32.transform(x32)
+            back = t32.transform.inv(y32)
+        finally:
+            torch.set_default_dtype(old_dtype)
+        C["mixed_precision_round_trips"] = 1
+        err = float((back.double() - x32.double()).abs().max())
+        scale = max(1.0, float(y32.double().abs().max()))
+        cond = 1.0
+        if kind == "GeneralNodeHeight":
+            from . import c06
+
+            tol_ = c06._inverse_tolerance(tc, x32.numpy())
+            cond = 0.0 if tol_ is None else 1.0
+        if y32.dtype != x32.dtype or (cond and err > 1e-9 * scale):
+            V.append(tt.viol("C07:mixed-precision:" + kind, "default dtype float32, parameters %s: forward output is %s, inv(forward(x)) misses x by %.3g (double precision would give ~1e-15)" % (
+                str(x32.dtype), str(y32.dtype), err), extra=extra))
+            return
     if case["route"] == "direct" or kind == "DifferenceNodeHeightSmooth":
         inv_tol = None
         if kind == "GeneralNodeHeight":
